@@ -25,6 +25,8 @@ pub struct OneResult {
     pub stats: BTreeMap<String, u64>,
     pub sample: Option<Value>,
     pub skipped: bool,
+    /// results-only digest of this run, comparable across processes and builds
+    pub xdigest: Option<u64>,
 }
 
 impl OneResult {
@@ -41,6 +43,10 @@ pub trait Property: Sync {
     fn run_one(&self, seed: u64, index: u64, thorough: bool) -> OneResult;
     /// re-execute a stored case; returns findings
     fn replay(&self, case: &Value) -> OneResult;
+    /// how many leading run indices take part in the cross-process comparison
+    fn xproc_runs(&self, _thorough: bool) -> u64 {
+        0
+    }
     /// minimise a failing case while `class` persists
     fn minimise(&self, found: &Found) -> Found {
         found.clone()
@@ -60,6 +66,8 @@ pub struct WorkerOut {
     pub stats: BTreeMap<String, u64>,
     pub samples: Vec<Value>,
     pub digest: u64,
+    /// (run index, results-only digest) for runs below the cross-process horizon
+    pub run_digests: Vec<(u64, u64)>,
 }
 
 /// run indices handled by `worker` of `nworkers`: index ≡ worker (mod nworkers)
@@ -75,6 +83,7 @@ pub fn worker_loop(
     let mut out = WorkerOut { worker, ..Default::default() };
     let mut nontrivial: BTreeSet<u64> = BTreeSet::new();
     let mut per_class: BTreeMap<String, u64> = BTreeMap::new();
+    let xhorizon = p.xproc_runs(thorough);
     let mut i = worker;
     let tag = format!("{}-{}", p.id(), if thorough { "thorough" } else { "quick" });
     while i < total {
@@ -88,6 +97,11 @@ pub fn worker_loop(
         out.runs += 1;
         if r.skipped {
             out.skipped += 1;
+        }
+        if let Some(d) = r.xdigest {
+            if i < xhorizon {
+                out.run_digests.push((i, d));
+            }
         }
         for (k, v) in r.stats {
             *out.stats.entry(k).or_insert(0) += v;
